@@ -4,12 +4,23 @@ NOTES = ('All checks explore the real implementation in /repo (working tree) exh
          'models (vt/ref). VERIF_SEED only rotates non-boundary members of value alphabets; structures are enumerated completely for every seed. '
          'Genuine defects found are fixed in /repo by "fix:" commits or listed in known_findings.json.')
 ENGINES = [
-    {'name': 'E-enum', 'path': 'vt/astgen.py, vt/par.py, vt/ref/', 'serves_properties': ['C01', 'C02', 'C03', 'C11', 'C15', 'C18'],
+    {'name': 'E-enum', 'path': 'vt/astgen.py, vt/par.py, vt/ref/', 'serves_properties': ['C01', 'C02', 'C03', 'C08', 'C11', 'C15', 'C18'],
      'kind_free_text': 'bounded-exhaustive program x data enumerator: all well-typed statements of bounded shape over the live registries x all tables/ledgers of bounded size over a value alphabet, executed on the real implementation and compared with a reference interpreter'},
     {'name': 'E-bfs', 'path': 'vt/explore/bfs.py', 'serves_properties': ['C10', 'C19'],
      'kind_free_text': 'explicit-state breadth-first search over operation histories on the product (real object, reference model) with canonical-state deduplication and closure detection'},
 ]
 CHECKS = {
+    'C08': {
+        'engine': 'E-enum',
+        'technique': 'bounded-exhaustive enumeration of inner x outer query menus (nesting depth 2-3) x all small data variants, differential against the materialised form and a reference interpreter',
+        'design_ref': 'DESIGN.md section 4, C08',
+        'text': '28 inner queries (filtered, aggregated, hidden-key ordered, DISTINCT, LIMIT, aliased, other/empty tables, containing IN-subqueries) x an outer menu generated from the inner output '
+                'columns (*, projections, expressions, WHERE, aggregation, ORDER BY, DISTINCT, LIMIT; 10-25 per inner), at depth 2 and, through wrappers, depth 3, x data variants of the base table '
+                '(a fixed table + ALL row sequences of length <= 1 (quick) / <= 2 (thorough) over 9 letters): rows AND description must equal the outer query run over a table materialising the real '
+                'inner result, and the rows must equal the reference interpreter; 140 IN / NOT IN (subquery) statements (targets first/middle/last, WHERE, two subqueries, nested, empty, NULLs) '
+                'against reference membership; text statements with expression-named and duplicate-named inner outputs.',
+        'note': 'Trusted: vt/ref/select.py. One open known finding (duplicate inner output names collapse in SELECT * FROM (q)).',
+    },
     'C15': {
         'engine': 'E-enum',
         'technique': 'bounded-exhaustive enumeration of all small tables x all pivot layouts against a reference reshaping, with un-pivot round trip',
